@@ -110,7 +110,7 @@ Theorem C09_e2e_one_request : forall sk cfg l su q,
   exists s s' b l',
     su_get su (spec_key (cf_single cfg) (q_uid q)) = Some s /\
     spec_answer s q = Some (s', b) /\
-    handle_one sk cfg l (delivery_of q) = Ok (l', b) /\
+    handle_one packet_of sk cfg l (delivery_of q) = Ok (l', b) /\
     units_rel l' (su_set su (spec_key (cf_single cfg) (q_uid q)) s') /\
     u_keys slavectx l' = u_keys slavectx l.
 Proof. exact handle_one_spec. Qed.
